@@ -11,5 +11,5 @@ CONSTANTS
   MaxOut = 1
   MaxSp = 1
   Emit = FALSE
-INVARIANTS Positions Partition Errors HashTag RangeOfOne
+INVARIANTS AllTheorems
 CHECK_DEADLOCK FALSE
